@@ -146,7 +146,14 @@ func propC15(c *Ctx, r *Report) {
 		sites := c.callSitesOf(f)
 		bad := ""
 		for _, s := range sites {
-			if fname(s.Caller) != spec.caller {
+			// the scheduled site, or a closure/stage of it (keyed by the owning reference function)
+			owned := false
+			for _, on := range c.ownerNames(s.Caller) {
+				if on == spec.caller {
+					owned = true
+				}
+			}
+			if fname(s.Caller) != spec.caller && !owned {
 				bad += fmt.Sprintf("called from %s at %s; ", fname(s.Caller), c.ipos(s.Site))
 			}
 		}
@@ -352,7 +359,7 @@ func init() {
 					break
 				}
 				pos = c.ipos(calls[0].Instr)
-				if m := mustPass(t.Root, calls[0].Instr); m != "" {
+				if m := mustPassDeep(t.Root, calls[0].Instr); m != "" { // the call may sit in a stage or step split off from SyncBlock
 					bad = fmt.Sprintf("h=%d: %s can be skipped without any error: %s", h, spec.callee, m)
 					break
 				}
